@@ -524,14 +524,14 @@ func genC02(c *Ctx) {
 }
 
 func genC03(c *Ctx) {
-	n := c.Scale(6000, 600000)
+	n := c.Scale(4000, 200000)
 	for k := 0; k < n; k++ {
 		p := randomPosition(c.R)
 		classifyPos(c, p)
 		tok := encPos(p)
 		out := c.Emit("allmoves " + tok)
 		c.Emit("slegal " + tok)
-		c.Count("nmoves~" + strconv.Itoa(len(strings.Fields(out))/32*32))
+		c.Count("nmoves>=" + bucket2(len(strings.Fields(out))))
 	}
 }
 
